@@ -326,7 +326,12 @@ func evaluate(k Case) (out []finding) {
 	}()
 	al := mkAligner(k)
 	reject(k, false)
-	ps, err := al.Align(seqOf(k.Letters, k.R, false), seqOf(k.Letters, k.Q, false))
+	refSeq := seqOf(k.Letters, k.R, false)
+	qrySeq := seqOf(k.Letters, k.Q, false)
+	if k.R == k.Q {
+		qrySeq = refSeq // a sequence aligned against itself: one object in both roles
+	}
+	ps, err := al.Align(refSeq, qrySeq)
 	if err != nil {
 		add("C09", "error-on-valid-input", "Align(%q,%q) = %v", k.R, k.Q, err)
 		return
@@ -411,7 +416,7 @@ func evaluate(k Case) (out []finding) {
 	optimal(segs, total, sum, a1, "")
 	// quality letters give the same pairs
 	reject(k, true)
-	qps, err := al.Align(seqOf(k.Letters, k.R, true), seqOf(k.Letters, k.Q, true))
+	qps, err := al.Align(seqOf(k.Letters, k.R, true), seqOf(k.Letters, k.Q, true)) // (two objects, also when the letters are equal)
 	if err != nil {
 		add("C09", "qletters-error", "quality-letter variant: %v", err)
 	} else if qsegs := segments(qps); fmt.Sprint(qsegs) != fmt.Sprint(segs) {
@@ -539,6 +544,13 @@ func illTyped(k Case) (out []finding) {
 	kind := strings.SplitN(k.Ill, ":", 2)[0]
 	switch kind {
 	case "illegal-letter": // R or Q already contains a letter outside the alphabet
+		if strings.Contains(k.Ill, "window") {
+			long, short := ref.(*linear.Seq), qry.(*linear.Seq)
+			if len(k.Q) > len(k.R) {
+				long, short = short, long
+			}
+			short.Seq = long.Seq[:len(short.Seq)]
+		}
 	case "other-alphabet":
 		a2, _ := alphabet.NewAlphabet(k.Letters, feat.DNA, alphabet.Letter(k.Letters[0]), 'n', true)
 		qry = own.NewSeq("q", alphabet.BytesToLetters([]byte(k.Q)), a2)
@@ -1063,6 +1075,11 @@ func run(c *enum.Ctx, prop string) {
 			Case{Aligner: al, R: "aca", Q: "ca", Letters: def, M: [][]int{}, Open: -1, Ill: "empty-matrix"},
 			Case{Aligner: al, R: "aca", Q: "ca", Letters: def, M: [][]int{{0, -1, -1}}, Open: -1, Ill: "short-matrix: 1x3"},
 		)
+	}
+	// the reference is a leading window of the query's own storage and the illegal letter lies beyond it
+	for _, al := range aligners {
+		ills = append(ills, Case{Aligner: al, R: "ac", Q: "acx", Letters: def, M: good, Open: -1, Ill: "illegal-letter: query position 2, the reference a window of the query's storage"})
+		ills = append(ills, Case{Aligner: al, R: "acxa", Q: "ac", Letters: def, M: good, Open: -1, Ill: "illegal-letter: reference position 2, the query a window of the reference's storage"})
 	}
 	// every matrix shape of 1..5 rows whose row lengths are the row count or one off it, except the
 	// square ones that cover the alphabet (cells: 1 on the diagonal, -1 elsewhere)
